@@ -28,7 +28,7 @@ func (h histStep) sexp() string {
 	return L(stmtsSexp(h.models), q(h.up), q(h.down), q(h.nextUp), q(h.nextDown), q(h.hashHist), q(h.hashModels), q(h.errs))
 }
 
-func runHistory(c *ctx, id string, cfg runCfg, revs [][]Stmt, onDisk bool, root string) {
+func runHistory(c *ctx, id string, cfg runCfg, revs [][]Stmt, onDisk bool, root string, versioned ...bool) {
 	st := sqlStyle{dialect: cfg.dialect}
 	hist := ""
 	dir := ""
@@ -71,7 +71,14 @@ func runHistory(c *ctx, id string, cfg runCfg, revs [][]Stmt, onDisk bool, root 
 		hs.down = guard(func() string { return models.StringDown() })
 		if onDisk {
 			e := guard(func() string {
-				if err := models.WriteFiles(fmt.Sprintf("rev %d", i)); err != nil {
+				var err error
+				if len(versioned) > 0 && versioned[0] {
+					// version 0 in the first file: the folder then declares the bookkeeping table itself
+					err = models.WriteFilesWithVersion(fmt.Sprintf("rev %d", i), int64(i), false)
+				} else {
+					err = models.WriteFiles(fmt.Sprintf("rev %d", i))
+				}
+				if err != nil {
 					return "error:" + firstLine(err.Error())
 				}
 				return "ok"
@@ -95,7 +102,11 @@ func runHistory(c *ctx, id string, cfg runCfg, revs [][]Stmt, onDisk bool, root 
 		hs.errs = fmt.Sprint(e1, ",", e2, ",", e3, ",", e4, ",", e5, ",", e6)
 		steps = append(steps, hs.sexp())
 	}
-	c.emit(id, "history", cfg.sexp(), b2s(onDisk), L(steps...))
+	tag := "history"
+	if len(versioned) > 0 && versioned[0] {
+		tag = "historyv"
+	}
+	c.emit(id, tag, cfg.sexp(), b2s(onDisk), L(steps...))
 	c.nontrivial(id + cfg.sexp() + fmt.Sprint(len(revs)))
 	c.counts["revisions"] += len(revs)
 }
@@ -167,4 +178,14 @@ func suiteHistory(c *ctx) {
 		runHistory(c, fmt.Sprintf("d%d", i), cfg, mkRevs("mysql", 3), true, root)
 		c.count("on_disk_histories")
 	}
+	// C04-g: a versioned folder (its first file creates the bookkeeping table), a table created by a later file and
+	// dropped again, then re-created with another shape
+	vrevs := [][]Stmt{
+		{tbl("a", ints("x")...)},
+		{tbl("a", ints("x")...), tbl("b", ints("y")...)},
+		{tbl("a", ints("x")...)},
+		{tbl("a", ints("x")...), tbl("b", ints("y", "z")...)},
+	}
+	runHistory(c, "w-disk-versioned", my, vrevs, true, root, true)
+	c.count("on_disk_histories")
 }
